@@ -283,6 +283,22 @@ type sline struct {
 	text string // content relative to the innermost container
 	role lineRole
 	pre  string // accumulated container prefixes (outermost first)
+	// lazyOK: a continuation line of a paragraph (not of a setext heading's
+	// content): containers may omit their marker or indentation on it
+	lazyOK bool
+}
+
+// lazyCandidates lists the lines on which a container may omit its prefix: a
+// paragraph continuation line whose inner containers (if any) contributed
+// nothing but spaces, so that what remains begins with paragraph text.
+func lazyCandidates(inner []sline, from int) []int {
+	var c []int
+	for i := from; i < len(inner); i++ {
+		if l := inner[i]; l.lazyOK && l.role == roleParaCont && strings.TrimLeft(l.pre, " ") == "" {
+			c = append(c, i)
+		}
+	}
+	return c
 }
 
 // Serializer turns a document into CommonMark source.
@@ -369,7 +385,10 @@ func (s *Serializer) blocks(bs []*Block, col int) []sline {
 		startLen := len(out)
 		switch b.Kind {
 		case BPara:
-			out = append(out, s.para(b.Inl)...)
+			for _, l := range s.para(b.Inl) {
+				l.lazyOK = l.role == roleParaCont
+				out = append(out, l)
+			}
 		case BATX:
 			out = append(out, s.atx(b))
 		case BSetext:
@@ -407,7 +426,19 @@ func (s *Serializer) blocks(bs []*Block, col int) []sline {
 			if len(inner) > 1 {
 				altLine = s.C.Dev(1+len(inner)) - 1
 			}
+			// Laziness: the marker may be omitted on a paragraph continuation line.
+			lazyLine := -1
+			if c := lazyCandidates(inner, 1); len(c) > 0 {
+				if d := s.C.Dev(1 + len(c)); d > 0 {
+					lazyLine = c[d-1]
+					s.UsedLazy = true
+				}
+			}
 			for li, l := range inner {
+				if li == lazyLine {
+					out = append(out, l)
+					continue
+				}
 				m := marker
 				if li == altLine {
 					m = map[string]string{"> ": " > ", ">": "  >", " > ": "> ", "   > ": " > "}[marker]
@@ -617,10 +648,18 @@ func (s *Serializer) list(b *Block, col int, prevBullet, prevDelim *byte) []slin
 			s.reject("marker line is a thematic break")
 		}
 		indent := strings.Repeat(" ", width)
+		// Laziness: the item's indentation may be omitted on a paragraph continuation line.
+		lazyLine := -1
+		if c := lazyCandidates(inner, 1); len(c) > 0 {
+			if d := s.C.Dev(1 + len(c)); d > 0 {
+				lazyLine = c[d-1]
+				s.UsedLazy = true
+			}
+		}
 		for j, l := range inner {
 			if j == 0 {
 				l.pre = marker + padding + l.pre
-			} else {
+			} else if j != lazyLine {
 				l.pre = indent + l.pre
 			}
 			out = append(out, l)
